@@ -1,6 +1,6 @@
 /-
   C23 — tangent operator converters `tfel::material::convert<To, From>` (property theorems only).
-  core of `DPK1_DF__DS_DEGL` (3D): the converter with the second Piola–Kirchhoff stress given as a stored vector `p`.
+  core of `DPK1_DF ← DS_DEGL` (3D), assembled from the nine component modules.
   `Gen.N<d>_<TO>__<FROM>_r c c3 fn D f g s` is the stored result (list of rows) of the traced converter
   for the source operator `D` (arbitrary symbols, stored matrix), `F0` (`f`), `F1` (`g`) and the stored
   Cauchy stress `s`. The meaning of every flag (`lam*`, kinematic rates) is in Spec.lean. Each theorem
@@ -10,13 +10,22 @@ import TfelVerif.Common.M3
 import TfelVerif.C23.Spec
 import TfelVerif.C23.Lemmas
 import TfelVerif.C23.GenN3_DPK1_DF__DS_DEGL_core
+import TfelVerif.C23.PropsN3_DPK1_DF__DS_DEGL_core_aux0
+import TfelVerif.C23.PropsN3_DPK1_DF__DS_DEGL_core_aux1
+import TfelVerif.C23.PropsN3_DPK1_DF__DS_DEGL_core_aux2
+import TfelVerif.C23.PropsN3_DPK1_DF__DS_DEGL_core_aux3
+import TfelVerif.C23.PropsN3_DPK1_DF__DS_DEGL_core_aux4
+import TfelVerif.C23.PropsN3_DPK1_DF__DS_DEGL_core_aux5
+import TfelVerif.C23.PropsN3_DPK1_DF__DS_DEGL_core_aux6
+import TfelVerif.C23.PropsN3_DPK1_DF__DS_DEGL_core_aux7
+import TfelVerif.C23.PropsN3_DPK1_DF__DS_DEGL_core_aux8
 
 namespace TfelVerif.C23.PropsN3_DPK1_DF__DS_DEGL_core
 open TfelVerif TfelVerif.Mandel TfelVerif.C23
 set_option linter.all false
 set_option maxHeartbeats 16000000
 set_option maxRecDepth 100000
-variable {K : Type} [Field K] (c c3 : K) (fn : Fns K)
+variable {K : Type} [Field K] [CharZero K] (c c3 : K) (fn : Fns K)
 
 /-- core of `DPK1_DF ← DS_DEGL`: `δP = δF S + F δS` with `δS = dS : δE`, for every stored second
 Piola–Kirchhoff stress `p`: `δP Fᵀ − L (F S Fᵀ) = F δS Fᵀ`. -/
@@ -25,7 +34,7 @@ theorem N3_DPK1_DF__DS_DEGL_core (hc : c * c = 2) (h2 : (2:K) ≠ 0)
     M3.tens3 (M3.ofTens (act (Gen.N3_DPK1_DF__DS_DEGL_core_r c c3 fn D p (tensv F)) (M3.tens3 (L * F))) * F.transpose
         - L * (F * (M3.ofMandel c [p 0, p 1, p 2, p 3, p 4, p 5]) * F.transpose))
       = M3.tens3 (F * (M3.ofMandel c (act (rowsOf D i6 i6) (M3.mandel3 c (dE F L)))) * F.transpose) := by
-  have hc0 : c ≠ 0 := c_ne_zero hc h2
-  c23_rat0c hc
+  simp only [M3.tens3, List.cons.injEq, and_true]
+  exact ⟨PropsN3_DPK1_DF__DS_DEGL_core_aux0.aux0 c c3 fn hc h2 D F L p, PropsN3_DPK1_DF__DS_DEGL_core_aux1.aux1 c c3 fn hc h2 D F L p, PropsN3_DPK1_DF__DS_DEGL_core_aux2.aux2 c c3 fn hc h2 D F L p, PropsN3_DPK1_DF__DS_DEGL_core_aux3.aux3 c c3 fn hc h2 D F L p, PropsN3_DPK1_DF__DS_DEGL_core_aux4.aux4 c c3 fn hc h2 D F L p, PropsN3_DPK1_DF__DS_DEGL_core_aux5.aux5 c c3 fn hc h2 D F L p, PropsN3_DPK1_DF__DS_DEGL_core_aux6.aux6 c c3 fn hc h2 D F L p, PropsN3_DPK1_DF__DS_DEGL_core_aux7.aux7 c c3 fn hc h2 D F L p, PropsN3_DPK1_DF__DS_DEGL_core_aux8.aux8 c c3 fn hc h2 D F L p⟩
 
 end TfelVerif.C23.PropsN3_DPK1_DF__DS_DEGL_core
